@@ -162,3 +162,157 @@ def st_case(draw: st.DrawFn, tier: str) -> dict:
 
 
 LAYER = Layer("real-startup-race", st_case, run, {"quick": 300, "thorough": 1500}, shards=8)
+
+
+# ----------------------------------------------------------------------------------------------
+# layer "real-accept-race": the stop request is aimed at the hand-over of a freshly accepted connection
+# (accept -> wrap into a transport -> client task).  Every connection the kernel handed to the server must be closed *by
+# the server* once it is stopped and closed: the peer sees EOF/reset, and no object of the library is left to its
+# finalizer (the library's own ResourceWarning "unclosed ..." is the witness).
+
+
+async def _accept_main(case: dict) -> dict:
+    import socket
+    import warnings
+
+    from easynetwork.lowlevel.api_async.backend._asyncio.backend import AsyncIOBackend
+    from easynetwork.protocol import StreamProtocol
+    from easynetwork.serializers import StringLineSerializer
+    from easynetwork.servers.async_tcp import AsyncTCPNetworkServer
+    from easynetwork.servers.handlers import AsyncStreamRequestHandler
+
+    counts = {"conn": 0, "disc": 0}
+
+    class SH(AsyncStreamRequestHandler):  # type: ignore[type-arg]
+        async def on_connection(self, client: Any) -> None:
+            counts["conn"] += 1
+
+        async def on_disconnection(self, client: Any) -> None:
+            counts["disc"] += 1
+
+        async def handle(self, client: Any) -> Any:
+            request = yield
+            await client.send_packet(request)
+
+    res: dict[str, Any] = {}
+    peers: list[socket.socket] = []
+    with warnings.catch_warnings(record=True) as caught:
+        warnings.simplefilter("always", ResourceWarning)
+        srv = AsyncTCPNetworkServer("127.0.0.1", 0, StreamProtocol(StringLineSerializer()), SH(), AsyncIOBackend())
+        up = asyncio.Event()
+        serve_task = asyncio.create_task(srv.serve_forever(is_up_event=up))
+        await up.wait()
+        addr = srv.get_addresses()[0]
+        try:
+            for gap in case["connect_gaps"]:
+                for _ in range(gap):
+                    await asyncio.sleep(0)
+                p = socket.socket()
+                p.settimeout(5)
+                p.connect((addr.host, addr.port))
+                p.setblocking(False)
+                peers.append(p)
+            for _ in range(case["ticks"]):
+                await asyncio.sleep(0)
+            if case["stop"] == "shutdown":
+                await srv.shutdown()
+            else:
+                serve_task.cancel()
+            await asyncio.gather(serve_task, return_exceptions=True)
+            await srv.server_close()
+            for _ in range(5):
+                await asyncio.sleep(0)
+            del srv
+            gc.collect()
+            still_open = 0
+            for p in peers:
+                try:
+                    data = p.recv(10)
+                    if data:
+                        raise HarnessError(f"peer received {data!r}")
+                except BlockingIOError:
+                    still_open += 1
+                except OSError:
+                    pass
+            res["still_open"] = still_open
+        finally:
+            for p in peers:
+                p.close()
+        res["warnings"] = [str(w.message)[:200] for w in caught if issubclass(w.category, ResourceWarning) and "unclosed" in str(w.message)]
+    res["counts"] = counts
+    return res
+
+
+def _recording_loop() -> Any:
+    from ..vloop import VLoop
+
+    class RecordingLoop(VLoop):
+        """remembers which accepted sockets were actually handed to the caller of sock_accept(): CPython 3.12's
+        sock_accept() can accept a connection for a future that has just been cancelled (InvalidStateError in
+        BaseSelectorEventLoop._sock_accept, the connection is dropped by the interpreter) - not the library's doing"""
+
+        def __init__(self) -> None:
+            super().__init__()
+            self.real_wait_s = 0.05
+            self.max_ticks = 200_000
+            self.delivered_fds: set[str] = set()  # peer addresses (repr) of the delivered connections: fd numbers are reused
+
+        async def sock_accept(self, sock: Any) -> Any:
+            conn, addr = await super().sock_accept(sock)
+            self.delivered_fds.add(repr(conn.getpeername()))
+            return conn, addr
+
+    return RecordingLoop()
+
+
+def run_accept(case: dict) -> Outcome:
+    import re
+
+    logging.disable(logging.CRITICAL)
+    try:
+        with asyncio.Runner(loop_factory=_recording_loop) as runner:
+            r = runner.run(_accept_main(case))
+            delivered = set(runner.get_loop().delivered_fds)  # type: ignore[attr-defined]
+        # a raw accepted socket only counts if the library ever held it
+        kept = []
+        for w in r["warnings"]:
+            m = re.match(r"unclosed <socket\.socket fd=\d+,.* raddr=(\(.*?\))>", w)
+            if m and m.group(1) not in delivered:
+                r.setdefault("stdlib_dropped", []).append(w)
+                continue
+            kept.append(w)
+        r["warnings"] = kept
+    except Deadlock as exc:
+        raise Violation("hang", f"accept race did not finish: {str(exc)[:600]}", stop=case["stop"]) from exc
+    finally:
+        logging.disable(logging.NOTSET)
+        gc.collect()
+    detail = {"stop": case["stop"], "ticks": case["ticks"], "peers": len(case["connect_gaps"]), "hooks": r["counts"]}
+    if r["still_open"]:
+        raise Violation("connection-left-open", f"{r['still_open']} accepted connection(s) still open at the peer after shutdown + server_close() + gc", **detail)
+    lib = [w for w in r["warnings"] if "easynetwork" in w or "AsyncioTransport" in w or "socket.socket" in w]
+    if lib:
+        raise Violation(
+            "closed-by-finalizer-only",
+            f"the server was stopped and closed, but {len(lib)} object(s) holding an accepted connection were never closed by the library - only their "
+            f"finalizer released the socket: {lib[0]} ({case['stop']} {case['ticks']} loop iterations after the last peer connected)",
+            **detail,
+        )
+    if r["counts"]["conn"] != r["counts"]["disc"]:
+        raise Violation("hooks-unbalanced", f"on_connection ran {r['counts']['conn']} times, on_disconnection {r['counts']['disc']} times", **detail)
+    classes = [f"stop-{case['stop']}", f"peers-{len(case['connect_gaps'])}", f"handled-{min(r['counts']['conn'], 3)}-of-{len(case['connect_gaps'])}"]
+    if r.get("stdlib_dropped"):
+        classes.append("connection-dropped-inside-stdlib-sock_accept")
+    return Outcome(nontrivial=r["counts"]["conn"] < len(case["connect_gaps"]), classes=tuple(classes))
+
+
+@st.composite
+def st_accept_case(draw: st.DrawFn, tier: str) -> dict:
+    return {
+        "connect_gaps": draw(st.lists(st.integers(0, 4), min_size=1, max_size=3)),
+        "ticks": draw(st.integers(0, 12)),
+        "stop": draw(st.sampled_from(["shutdown", "shutdown", "cancel"])),
+    }
+
+
+ACCEPT_LAYER = Layer("real-accept-race", st_accept_case, run_accept, {"quick": 200, "thorough": 1000}, shards=8)
